@@ -183,6 +183,32 @@ func genWalks(g *Gen, w wWorld) []walkJ {
 	for i := 0; i < npk; i++ {
 		walks = append(walks, mk(ref{900000 + i, []int{}}, "rec", 0))
 	}
+	// every answer at the start node itself, for one start node of each container kind
+	firstOf := map[string]ref{}
+	for _, e := range allEntities(r) {
+		if _, ok := firstOf[e.kind]; !ok && !inEntry(e.ref) {
+			firstOf[e.kind] = e.ref
+		}
+	}
+	starts := []ref{{900000, []int{}}}
+	for _, k := range []string{"file", "msg", "enum", "service"} {
+		if rf, ok := firstOf[k]; ok {
+			starts = append(starts, rf)
+		}
+	}
+	for _, st := range starts {
+		for a := 1; a <= 4; a++ {
+			wk := mk(st, "rec", 5)
+			kept := wk.Policy[:0]
+			for _, pe := range wk.Policy {
+				if pe.R.key() != st.key() {
+					kept = append(kept, pe)
+				}
+			}
+			wk.Policy = append(kept, polEntry{st, a, 2})
+			walks = append(walks, wk)
+		}
+	}
 	for k := 0; k < 6 && len(all) > 0; k++ {
 		start := all[g.Rng.Intn(len(all))]
 		if k < 2 {
